@@ -1681,3 +1681,28 @@ MUTANTS += [
  dict(name='benign-r7-C20-3', prop='C20', benign=True, expect='', patch='selftest/fixes/benign-r7-C20-3.patch'),
  dict(name='benign-r7-C20-3-on-C15', prop='C15', benign=True, expect='', patch='selftest/fixes/benign-r7-C20-3.patch'),
 ]
+
+# ---- round 15 seeds, and hand mutants of the plain double-and-add multiplication (R-POLY/doubleadd, added after the C06 seed was missed)
+MUTANTS += [
+ dict(name='seed-C02-is-zero-dword-fold', prop='C02', novd=True, patch='seeded/C02-is-zero-dword-fold-shifts-by-sizeof/patch.diff', expect=''),
+ dict(name='seed-C05-fq2-is-one-from-is-zero', prop='C05', patch='seeded/C05-fq2-is-one-copied-from-is-zero/patch.diff', expect='Fq2::is_one'),
+ dict(name='seed-C06-doubleadd-skips-zero-words', prop='C06', novd=True, patch='seeded/C06-doubleadd-skips-zero-scalar-words/patch.diff', expect=''),
+ dict(name='seed-C09-compressed-never-validates', prop='C09', patch='seeded/C09-compressed-decode-never-validates/patch.diff', expect='VIOLATION property=C09'),
+ dict(name='seed-C13-message-hash-reduce', prop='C13', patch='seeded/C13-message-exponent-through-hash-reduce/patch.diff', expect='VIOLATION property=C13'),
+ dict(name='seed-C17-length-firstbyte-eq-1', prop='C17', patch='seeded/C17-unmarshalled-length-firstbyte-equals-one/patch.diff', expect='VIOLATION property=C17'),
+ dict(name='c06-doubleadd-stops-before-bit-0', prop='C06', expect='R-POLY/doubleadd',
+      edits=[('include/bls12_381/curve.hpp', 'for (int i = highest_bit; i != -1; i--) {\n                this->multiply2(*this);\n                if (scalar.bit(i)) {',
+              'for (int i = highest_bit; i != 0; i--) {\n                this->multiply2(*this);\n                if (scalar.bit(i)) {')]),
+ dict(name='c06-doubleadd-adds-on-clear-bit', prop='C06', expect='R-POLY/doubleadd',
+      edits=[('include/bls12_381/curve.hpp', 'this->multiply2(*this);\n                if (scalar.bit(i)) {\n                    this->add(*this, base);',
+              'this->multiply2(*this);\n                if (!scalar.bit(i)) {\n                    this->add(*this, base);')]),
+ dict(name='c06-doubleadd-add-before-double', prop='C06', expect='R-POLY/doubleadd',
+      edits=[('include/bls12_381/curve.hpp', 'this->multiply2(*this);\n                if (scalar.bit(i)) {\n                    this->add(*this, base);\n                } else {',
+              'if (scalar.bit(i)) {\n                    this->add(*this, base);\n                    this->multiply2(*this);\n                } else {\n                    this->multiply2(*this);')]),
+ dict(name='c06-doubleadd-starts-below-highest-bit', prop='C06', expect='R-POLY/doubleadd',
+      edits=[('include/bls12_381/curve.hpp', 'this->copy(zero);\n            for (int i = highest_bit; i != -1; i--) {', 'this->copy(zero);\n            for (int i = highest_bit - 1; i != -1; i--) {')]),
+ # behaviour-preserving: count down with a while loop
+ dict(name='c06-benign-doubleadd-while-loop', prop='C06', benign=True, expect='',
+      edits=[('include/bls12_381/curve.hpp', 'for (int i = highest_bit; i != -1; i--) {\n                this->multiply2(*this);\n                if (scalar.bit(i)) {',
+              'for (int i = highest_bit; i >= 0; --i) {\n                this->multiply2(*this);\n                if (scalar.bit(i)) {')]),
+]
